@@ -4,12 +4,15 @@ import (
 	"bytes"
 	"encoding/base64"
 	"fmt"
+	"io"
+	"net"
 	"net/http"
 	"sync"
 	"time"
 
 	"github.com/cnotch/ipchub/av/codec"
 	"github.com/cnotch/ipchub/media"
+	"github.com/cnotch/ipchub/network/websocket"
 	sflv "github.com/cnotch/ipchub/service/flv"
 	"github.com/cnotch/xlog"
 
@@ -24,16 +27,16 @@ func init() {
 		Cfg:          sim.RunConfig{Grace: time.Minute, Horizon: time.Hour, StepCap: 200000},
 		RunsQuick:    8000,
 		RunsThorough: 500000,
-		Real:         []string{"flv.Muxer (goroutine) + H264/H265/AAC packetizers + decoder configuration records + AMF0 metadata", "media.Stream.WriteFrame/WriteFlvTag, FlvCache join replay", "service/flv.ConsumeByHTTP + flv.Writer (header, tags, rebasing)", "media delivery goroutines"},
-		Stub:         []string{"the HTTP response (recording http.ResponseWriter whose Write is a schedule point)", "frames are injected at media.Stream.WriteFrame (the RTP demuxer is covered by C06)"},
+		Real:         []string{"flv.Muxer (goroutine) + H264/H265/AAC packetizers + decoder configuration records + AMF0 metadata", "media.Stream.WriteFrame/WriteFlvTag, FlvCache join replay", "service/flv.ConsumeByHTTP and ConsumeByWebsocket + flv.Writer (header, tags, rebasing)", "media delivery goroutines"},
+		Stub:         []string{"the HTTP response / the WebSocket connection (recording writer whose Write is a schedule point; one Write = one message)", "frames are injected at media.Stream.WriteFrame (the RTP demuxer is covered by C06)"},
 		Rule: "one run = 6-40 frames (H.264+AAC or H.265; IDR/IRAP, P, SEI, in-band parameter sets; 1 byte..70 KiB; DTS in 40 ms steps from 0, 1e6 s or just below the 2^32 ms boundary; PTS-DTS in {0,+80,-40} ms; " +
-			"audio older than the first video tag), cache_gop on/off, 1-2 HTTP-FLV viewers joining at tape-chosen frames, stream closed at the end or while a viewer is being written to; " +
+			"audio older than the first video tag), cache_gop on/off, 1-2 HTTP-FLV or WebSocket-FLV viewers joining at tape-chosen frames, stream closed at the end or while a viewer is being written to; " +
 			"an independent FLV/AMF0 reader parses what each viewer received. distinct = event-log hash; non-trivial = at least one pre-emption",
 		Assumptions: []string{
 			"the input dimension (sizes, NAL types, times) is sampled; what simulation adds is the join point, the interleaving of muxer, delivery and viewer writes, and close-while-writing",
 			"a viewer may receive a prefix only (the stream is closed while tags are still queued)",
 		},
-		RequiredProbes: []string{"c08.join-with-replay", "c08.audio-older-than-first"},
+		RequiredProbes: []string{"c08.join-with-replay", "c08.audio-older-than-first", "c08.websocket-flv"},
 	})
 }
 
@@ -53,6 +56,39 @@ func (r *c08RW) Write(b []byte) (int, error) {
 	defer r.mu.Unlock()
 	return r.buf.Write(b)
 }
+
+// c08WS is the viewer's end of a WebSocket-FLV connection as flv.ConsumeByWebsocket sees it
+// (network/websocket.Conn): every Write is one binary message, Read blocks until the close.
+type c08WS struct {
+	rw     *c08RW
+	closed chan struct{}
+	once   sync.Once
+	msgs   int
+}
+
+func (c *c08WS) Read(b []byte) (int, error) {
+	<-c.closed
+	return 0, io.EOF
+}
+func (c *c08WS) Write(b []byte) (int, error) {
+	select {
+	case <-c.closed:
+		return 0, io.ErrClosedPipe
+	default:
+	}
+	c.msgs++
+	return c.rw.Write(b)
+}
+func (c *c08WS) Close() error                       { c.once.Do(func() { close(c.closed) }); return nil }
+func (c *c08WS) LocalAddr() net.Addr                { return &net.TCPAddr{IP: net.IPv4(10, 9, 0, 1), Port: 1554} }
+func (c *c08WS) RemoteAddr() net.Addr               { return &net.TCPAddr{IP: net.IPv4(10, 9, 0, 9), Port: 1234} }
+func (c *c08WS) SetDeadline(t time.Time) error      { return nil }
+func (c *c08WS) SetReadDeadline(t time.Time) error  { return nil }
+func (c *c08WS) SetWriteDeadline(t time.Time) error { return nil }
+func (c *c08WS) Subprotocol() string                { return "" }
+func (c *c08WS) TextTransport() websocket.Conn      { return c }
+func (c *c08WS) Path() string                       { return "/live/a" }
+func (c *c08WS) Username() string                   { return "" }
 
 type c08Frame struct {
 	f     *codec.Frame
@@ -131,8 +167,10 @@ func buildC08(tier string) sim.Scenario {
 		needReplay := false
 		nView := 1 + tp.Choose(2)
 		joinAt := make([]int, nView)
+		viaWS := make([]bool, nView)
 		for i := range joinAt {
 			joinAt[i] = tp.Choose(len(frames))
+			viaWS[i] = tp.Choose(3) == 2
 		}
 		if base == 1<<32-300 {
 			// a stream that old has viewers that joined with a GOP replay (headers re-stamped to the GOP's time): a viewer
@@ -171,7 +209,12 @@ func buildC08(tier string) sim.Scenario {
 				if cacheGop && published > 0 {
 					w.Probe("c08.join-with-replay")
 				}
-				sflv.ConsumeByHTTP(xlog.L(), "/live/a", "10.9.0.9:1234", views[v])
+				if viaWS[v] {
+					w.Probe("c08.websocket-flv")
+					sflv.ConsumeByWebsocket(xlog.L(), "/live/a", "10.9.0.9:1234", &c08WS{rw: views[v], closed: make(chan struct{})})
+				} else {
+					sflv.ConsumeByHTTP(xlog.L(), "/live/a", "10.9.0.9:1234", views[v])
+				}
 			})
 		}
 		wg.Add(1)
